@@ -202,7 +202,7 @@ def main(modname):
     if errors:
         problems.append(f'{len(errors)} case(s) crashed: ' + '; '.join(e['error'][:200] for e in errors[:3]))
     if unknown:
-        problems.append(f'{len(unknown)} deciding quer(ies) unknown: ' + ', '.join(u['label'] for u in unknown[:5]))
+        problems.append(f'{len(unknown)} deciding quer(ies) unknown: ' + ', '.join(f"{u['label']} [{str(u.get('case'))[:80]}]" for u in unknown[:5]))
     if unsupported:
         problems.append(f'{len(unsupported)} path(s) hit an unsupported construct: ' + '; '.join(unsupported[:3]))
     if not_exhausted:
